@@ -436,11 +436,15 @@ def run(tier):
         "assumed to behave like the representative of their class",
         "u64::MAX stands for all indices/counts beyond every length (passed as 1000000 in the spec)",
         "to_lowercase/to_uppercase are asserted for ASCII, one-to-one Latin-1 letters, the letters of Builtins.CaseTable (digraphs incl. title case, Greek alpha, Cyrillic a) and caseless characters only",
-        "float to_string/sqrt/pow are asserted only where the result is exact (see std_defined); "
-        "floats are dyadic numbers with small mantissas and the special values",
+        "float to_string/pow are asserted only where the result is exact (see std_defined); in the Builtins part "
+        "floats are dyadic numbers with small mantissas and the special values; abs/floor/ceil/round/sqrt/is_* on "
+        "arbitrary bit patterns (inexact sqrt, ties, subnormals, NaN) are decided by the Ieee.tla part",
         "Prefix.new is called with valid lengths only (invalid lengths abort: property C10)",
         "exhaustive only within the bounds listed in exhaustive_parts; beyond them seeded random arguments",
     ]
+    # float built-ins on arbitrary bit patterns (inexact results, ties, subnormals, NaN): spec/Ieee.tla
+    from checks import c01ieee
+    c01ieee.run_ieee_builtins(tier, ev, verd)
     rc = verd.finish()
     ev.write(len(verd.violations))
     return rc
@@ -448,6 +452,9 @@ def run(tier):
 
 def replay(path):
     obj = json.load(open(path))["replay"]
+    if isinstance(obj, dict) and obj.get("part") == "ieee":
+        from checks import c01ieee
+        return c01ieee.replay_ieee(obj, PID)
     vlib.build_harness(["c17"])
     verd = Verdicts(PID)
     res = vlib.run_batch("c17", [{"m": obj["m"], "a": obj["a"]}], nproc=1, pid=PID, tag="replay")
